@@ -525,6 +525,52 @@ Theorem c17_poll_pending_not_closed :
   state_is_closed (v_state s') (o_wait_for_last_ack (v_opts s')) = false.
 Proof. exact (poll_pending_not_closed cci). Qed.
 
+(* (c) the bound is NOT an assumption: 0 <= segmented bytes <= buffer length (with the segment-table and
+   segment-size invariants, LB 0) holds after vsock_new on a valid configuration and is kept by every event *)
+Theorem c17_lb_new :
+  forall mk cfg (s0 : vsock),
+  C10_Pred.vconfig_ok cfg = true -> vsock_new cci mk cfg = Some s0 -> C17_StepLemmas.LB 0 s0.
+Proof. exact (C17_StepLemmas.vsock_new_LB cci). Qed.
+
+Theorem c17_lb_step :
+  forall (s : vsock) o,
+  C17_StepLemmas.LB 0 s -> let '(s', _, _, _) := vstep cci s o in C17_StepLemmas.LB 0 s'.
+Proof. exact (LB_vstep_expanded cci). Qed.
+
+Theorem c17_seg_bounds_trace :
+  forall mk cfg (s0 : vsock) ops,
+  C10_Pred.vconfig_ok cfg = true -> vsock_new cci mk cfg = Some s0 ->
+  forallb (fun st => c17_seg_bounds (fs_post st)) (ftrace cci s0 ops) = true.
+Proof. exact (C17_Step.c17_seg_bounds_trace cci). Qed.
+
+(* (c) hence, for every connection built from a valid configuration: c17_fin_after_data_ok holds of every step
+   unless the channel is closed and the poll reports a transport error ... *)
+Theorem c17_fin_after_data_ok_step_inv :
+  forall cfg (s : vsock) o,
+  C17_StepLemmas.LB 0 s ->
+  let '(s', out, dw, sw) := vstep cci s o in
+  let st := {| fs_now := v_env_now s'; fs_pre := fp_of_vsock cci s; fs_event := fevent_of o;
+               fs_result := fresult_of out; fs_disp_woken := dw; fs_self_woken := sw;
+               fs_post := fp_of_vsock cci s' |} in
+  v_inbox_closed s = false \/ c17_not_err_send (fs_result st) = true ->
+  c17_fin_after_data_ok cfg st = true.
+Proof. exact (c17_fin_after_data_ok_vstep_inv cci). Qed.
+
+(* ... along every trace, for the steps that do not report a transport error
+   (c17_fin_after_data_noerr cfg st = if c17_not_err_send (fs_result st) then c17_fin_after_data_ok cfg st else true) ... *)
+Theorem c17_fin_after_data_noerr_trace :
+  forall mk cfg (s0 : vsock) ops,
+  C10_Pred.vconfig_ok cfg = true -> vsock_new cci mk cfg = Some s0 ->
+  forallb (c17_fin_after_data_noerr cfg) (ftrace cci s0 ops) = true.
+Proof. exact (C17_Step.c17_fin_after_data_noerr_trace cci). Qed.
+
+(* ... and the predicate exactly as written along every trace without VoCloseInbox *)
+Theorem c17_fin_after_data_ok_open_trace :
+  forall mk cfg (s0 : vsock) ops,
+  C10_Pred.vconfig_ok cfg = true -> vsock_new cci mk cfg = Some s0 -> Forall not_close_inbox ops ->
+  forallb (c17_fin_after_data_ok cfg) (ftrace cci s0 ops) = true.
+Proof. exact (C17_Step.c17_fin_after_data_ok_open_trace cci). Qed.
+
 End StepLevel.
 
 (* counterexample: c17_fin_after_data_ok is false of the model (channel closed, FIN refused by the transport) *)
@@ -581,3 +627,9 @@ Print Assumptions c17_reset_err_poll_out.
 Print Assumptions c17_reset_ack_poll.
 Print Assumptions c17_poll_pending_drained.
 Print Assumptions c17_poll_pending_not_closed.
+Print Assumptions c17_lb_new.
+Print Assumptions c17_lb_step.
+Print Assumptions c17_seg_bounds_trace.
+Print Assumptions c17_fin_after_data_ok_step_inv.
+Print Assumptions c17_fin_after_data_noerr_trace.
+Print Assumptions c17_fin_after_data_ok_open_trace.
